@@ -259,6 +259,9 @@ PIPELINES = {
     'sources_sub_row': [SRC, {'op': 'c04_cb', 'which': 'sources_sub_row', 'id': 'sources_sub_row'}, S('dump_to_path', {'$path': 'dump'})],
     'iterobj': [{'op': 'c04_iterobj', 'n': 5}, S('add_field', 'z', 'integer', 7), S('dump_to_path', {'$path': 'dump'})],
     'iterobj_second': [SRC, {'op': 'c04_iterobj', 'n': 3}, S('dump_to_path', {'$path': 'dump'})],
+    # resources that keep their rows but lose every field (rows are empty dicts from then on)
+    'nofields': [SRC, S('delete_fields', ['a', 'b', 'c'], resources=None), S('dump_to_path', {'$path': 'dump'})],
+    'nofields_validate': [SRC, S('delete_fields', ['a', 'b', 'c'], resources=None), S('validate')],
     'generator': [{'op': 'c04_gen', 'n': 130}, S('add_field', 'z', 'integer', 7), S('dump_to_path', {'$path': 'dump'})],
 }
 DRAINED = {'delete_later', 'delete_later2'}
@@ -267,6 +270,9 @@ ARTEFACTS = {   # step op -> how to detect that it committed
 }
 # positions restart inside nested Flows (checkpoint is one): only flat chains have an unambiguous numbering
 FLAT = {k for k, v in PIPELINES.items() if not any(s.get('op') in ('flow', 'conditional_true', 'checkpoint_first') for s in v)}
+
+
+ALL_ROWS_FLOW = {'rowwise', 'nofields', 'nofields_validate'}
 
 
 def committed_artefacts(env, steps, positions):
@@ -355,6 +361,10 @@ def run_case(case):
             # its end): a step failing on such a row must get the chance to fail
             return [('fault-skipped', '%s: the run returned normally and the failing step was never asked for that row - rows of '
                      'a resource deleted further down were not pulled through the steps before it' % label)], 'violated', True
+        if pipe in ALL_ROWS_FLOW and inject[0] == 'wrap' and inject[2][0] in ('row', 'end'):
+            # no step of these pipelines drops or holds back a row: every row of every resource reaches every position
+            return [('fault-skipped', '%s: the run returned normally and the failing step was never asked for that row although '
+                     'no step of the pipeline removes rows' % label)], 'violated', True
         return [], 'fault-not-reached', False
     if res[0] == 'ok':
         viol.append(('returned-normally', '%s: the run returned normally although the step raised' % label))
